@@ -465,6 +465,8 @@ def roundtrip_chain(ctx, kind, tmp):
     cls = {"Mps": Mps, "MpDm": MpDm, "Mpo": Mpo}[kind]
     fname = os.path.join(tmp, "state.npz")
     before = [np.array(obj[k].array, copy=True) for k in range(obj.site_num)]
+    meta_before = {"qn": [np.array(q, copy=True) for q in obj.qn], "qnidx": int(obj.qnidx), "to_right": bool(obj.to_right),
+                   "qntot": np.array(obj.qntot, copy=True), "coeff": complex(getattr(obj, "coeff", 1.0))}
     ctx.lib(obj.dump, fname, what=f"{kind}.dump")
     if not ctx.check(os.path.exists(fname), f"roundtrip|{kind}|dump-wrote-no-file"):
         return
@@ -472,6 +474,10 @@ def roundtrip_chain(ctx, kind, tmp):
         ver = str(z["version"])
     ctx.cls(f"format:{ver}")
     ctx.check(all(_same_bits(x, obj[k].array) for k, x in enumerate(before)), f"roundtrip|{kind}|dump-changed-the-object")
+    ctx.check(len(obj.qn) == len(meta_before["qn"]) and all(np.array_equal(np.asarray(a), b) for a, b in zip(obj.qn, meta_before["qn"]))
+              and int(obj.qnidx) == meta_before["qnidx"] and bool(obj.to_right) == meta_before["to_right"]
+              and np.array_equal(np.asarray(obj.qntot), meta_before["qntot"])
+              and complex(getattr(obj, "coeff", 1.0)) == meta_before["coeff"], f"roundtrip|{kind}|dump-changed-the-bookkeeping-of-the-object")
     loaded = ctx.lib(cls.load, model, fname, what=f"{kind}.load")
     ctx.count("roundtrip_objects")
     ctx.count("oracle")
@@ -704,7 +710,12 @@ def roundtrip_tree(ctx, tmp):
     ctx.describe(desc)
 
     fname = os.path.join(tmp, "tree.npz")
+    snap = {"tensors": [np.array(nd.tensor, copy=True) for nd in t.node_list], "qn": [np.array(nd.qn, copy=True) for nd in t.node_list],
+            "coeff": complex(np.asarray(t.coeff).item())}
     ctx.lib(t.dump, fname, what="TTNS.dump")
+    ctx.check(all(_same_bits(a, np.asarray(nd.tensor)) for a, nd in zip(snap["tensors"], t.node_list))
+              and all(np.array_equal(a, np.asarray(nd.qn)) for a, nd in zip(snap["qn"], t.node_list))
+              and complex(np.asarray(t.coeff).item()) == snap["coeff"], "roundtrip|TTNS|dump-changed-the-object")
     if not ctx.check(os.path.exists(fname), "roundtrip|TTNS|dump-wrote-no-file"):
         return
     with np.load(fname, allow_pickle=True) as z:
